@@ -356,12 +356,18 @@ def _nb_slot(c2, f2, g2):
     return [jj for jj in range(3) if int(c2._sc_adj[f2, jj]) - 1 == g2]
 
 
+def _turned_pair(env, model='flow'):
+    """Real Reactors of the loading pattern turned `turns` times and turns + 1 times by 60 degrees."""
+    lay = list(SC.LAYOUTS[env.params['layout']])
+    for _ in range(env.params.get('turns', 0)):
+        lay = SC.rotate_layout(lay)
+    return SC.build_reactor(tuple(lay), gap_model=model), SC.build_reactor(tuple(SC.rotate_layout(lay)), gap_model=model)
+
+
 def body_core_tables(env):
     """Index and geometry tables of the turned core = turned tables (no symbolic dimension: enumeration)."""
-    lay = SC.LAYOUTS[env.params['layout']]
     model = env.params.get('model', 'flow')
-    r = SC.build_reactor(env.params['layout'], gap_model=model)
-    r2 = SC.build_reactor(SC.rotate_layout(lay), gap_model=model)
+    r, r2 = _turned_pair(env, model)
     rho, sigma, imap, shift = _core_maps(env, r, r2)
     c1, c2 = r.core, r2.core
 
@@ -437,10 +443,8 @@ def _turned_core(env, c, r2, sigma, imap, sym_wp):
 
 def body_core_step(env):
     """One real gap step (flow / no-flow / duct-average) on a core and on the turned core with the turned state."""
-    lay = SC.LAYOUTS[env.params['layout']]
     model = env.params.get('model', 'flow')
-    r = SC.build_reactor(env.params['layout'], gap_model=model)
-    r2 = SC.build_reactor(SC.rotate_layout(lay), gap_model=model)
+    r, r2 = _turned_pair(env, model)
     rho, sigma, imap, shift = _core_maps(env, r, r2)
     with env.patch(CMODS):
         c = SC.sym_core(env, r)
@@ -467,9 +471,7 @@ def body_core_axial(env):
     """Real Reactor.axial_step (duct -> gap map, gap step, gap -> duct maps weighted by the film coefficient) on both cores
     with stub assemblies carrying symbolic outer-duct temperatures: what every assembly is handed turns with the core
     (the maps are float matrices: 1e-9 relative tolerance, linear arithmetic)."""
-    lay = SC.LAYOUTS[env.params['layout']]
-    r = SC.build_reactor(env.params['layout'])
-    r2 = SC.build_reactor(SC.rotate_layout(lay))
+    r, r2 = _turned_pair(env)
     rho, sigma, imap, shift = _core_maps(env, r, r2)
     with env.patch(CMODS):
         c = SC.sym_core(env, r, sym_wp=False)
@@ -565,8 +567,14 @@ def instances(tier):
     for k in ((1, 3) if tier == 'quick' else (1, 2, 3, 4, 5)):
         inst.append(dict(label='sixnode-rotation[k=%d]' % k, body=body_sixnode, params={'k': k}))
     inst.append(dict(label='sixnode-mirror', body=body_sixnode, params={'k': 0, 'mirror': True}))
-    lays = ['three-a2-a3-ur', 'six-hole', 'seven-mixed', 'ring-no-centre'] + (['three-a3-dd-u6', 'two-a2-a3', 'nineteen-sparse'] if tier == 'thorough' else [])
+    lays = ['three-a2-a3-ur', 'six-hole', 'seven-mixed', 'ring-no-centre', 'seven-alt', 'five-alt'] + \
+        (['three-a3-dd-u6', 'two-a2-a3', 'nineteen-sparse'] if tier == 'thorough' else [])
     for l in lays:
+        # the tables of the pattern turned t times against those of the pattern turned t + 1 times, all six turns (a slip that depends on the
+        # absolute hex-side index shows for some orientations only)
+        for t in range(1, 6):
+            inst.append(dict(label='core-tables[%s,flow,turned %d times]' % (l, t), body=body_core_tables, params={'layout': l, 'model': 'flow', 'turns': t},
+                             check_vacuity=False))
         for model in ('flow', 'no_flow', 'duct_average'):
             if tier == 'quick' and model != 'flow' and l != 'three-a2-a3-ur':
                 continue
